@@ -39,10 +39,11 @@ class HObj:
 
 
 class Frame:
-    __slots__ = ("locals", "module", "cls", "func", "yields", "self_v", "closure")
+    __slots__ = ("locals", "module", "cls", "func", "yields", "self_v", "closure", "local_names")
 
     def __init__(self, module, cls=None, func=None, closure=None):
         self.locals = {}
+        self.local_names = frozenset()
         self.module = module
         self.cls = cls
         self.func = func
@@ -55,6 +56,7 @@ class Frame:
         f.locals = dict(self.locals)
         f.yields = list(self.yields) if self.yields is not None else None
         f.self_v = self.self_v
+        f.local_names = self.local_names
         return f
 
 
@@ -345,7 +347,7 @@ class Engine:
         "PermissionError": "OSError", "IsADirectoryError": "OSError", "NotADirectoryError": "OSError",
         "TimeoutError": "OSError", "ConnectionError": "OSError",
         "RuntimeError": "Exception", "NotImplementedError": "RuntimeError", "RecursionError": "RuntimeError",
-        "StopIteration": "Exception", "TypeError": "Exception", "ValueError": "Exception",
+        "StopIteration": "Exception", "TypeError": "Exception", "ValueError": "Exception", "UnboundLocalError": "NameError",
         "UnicodeError": "ValueError", "MemoryError": "Exception",
         "queue.Empty": "Exception", "sqlite3.OperationalError": "Exception", "sqlite3.Error": "Exception",
         "msgpack.UnpackException": "Exception",
@@ -579,6 +581,8 @@ class Engine:
         f = st.frame
         if n in f.locals:
             return self.ok(st, f.locals[n])
+        if n in f.local_names:
+            return [self.raise_new(st, "UnboundLocalError", "cannot access local variable '%s' where it is not associated with a value" % n)]
         cl = f.closure
         while cl is not None:
             live = cl
@@ -979,6 +983,7 @@ class Engine:
             self.stats["inlined"].add(qn)
         fr = Frame(fref.module, fref.cls, fref, closure=fref.closure)
         fr.self_v = self_v
+        fr.local_names = _assigned_names(node)
         allargs = ([self_v] if self_v is not None else []) + list(args)
         outs0 = self.bind_params(st, fr, node.args, allargs, kwargs, qn)
         res = []
@@ -1446,6 +1451,42 @@ class Engine:
         info.closure = st.frame
         st.frame.locals[stmt.name] = C(ClassRef(info))
         return [(st, ("next", None))]
+
+
+_assigned_cache = {}
+
+
+def _assigned_names(node):
+    """names bound by assignment somewhere in a function body (its local scope, excluding parameters)"""
+    key = id(node)
+    if key in _assigned_cache:
+        return _assigned_cache[key]
+    names = set()
+    if not isinstance(node, ast.Lambda):
+        def visit(n, top):
+            for ch in ast.iter_child_nodes(n):
+                if isinstance(ch, (ast.FunctionDef, ast.AsyncFunctionDef, ast.ClassDef)):
+                    names.add(ch.name)
+                    continue
+                if isinstance(ch, ast.Lambda):
+                    continue
+                if isinstance(ch, (ast.ListComp, ast.SetComp, ast.DictComp, ast.GeneratorExp)):
+                    continue
+                if isinstance(ch, ast.Name) and isinstance(ch.ctx, ast.Store):
+                    names.add(ch.id)
+                if isinstance(ch, ast.ExceptHandler) and ch.name:
+                    names.add(ch.name)
+                visit(ch, False)
+        visit(node, True)
+        params = set(a.arg for a in node.args.posonlyargs + node.args.args + node.args.kwonlyargs)
+        if node.args.vararg:
+            params.add(node.args.vararg.arg)
+        if node.args.kwarg:
+            params.add(node.args.kwarg.arg)
+        names -= params
+    res = frozenset(names)
+    _assigned_cache[key] = res
+    return res
 
 
 def _refs_new(v, water):
